@@ -25,6 +25,32 @@ import (
 
 var devModeOnce sync.Once
 var devModeErr error
+var devModeRoot string
+
+// coldDevCache makes the development-mode literal cache cold without touching its internals:
+// the text files move to a fresh root directory (the cache is keyed by their paths), which is
+// what a restarted program with an empty cache sees.
+func coldDevCache() {
+	old := devModeRoot
+	root, err := os.MkdirTemp("", "verif-devmode-")
+	if err != nil {
+		return
+	}
+	ents, _ := os.ReadDir(old)
+	for _, e := range ents {
+		b, err := os.ReadFile(filepath.Join(old, e.Name()))
+		if err != nil {
+			continue
+		}
+		os.WriteFile(filepath.Join(root, e.Name()), b, 0o644)
+		if fi, err := e.Info(); err == nil {
+			os.Chtimes(filepath.Join(root, e.Name()), fi.ModTime(), fi.ModTime())
+		}
+	}
+	os.Setenv("TEMPL_DEV_MODE_ROOT", root)
+	devModeRoot = root
+	os.RemoveAll(old)
+}
 
 // ensureDevModeFiles writes the development-mode text files of the corpus with the
 // real watch-mode event handler (once per process).
@@ -36,6 +62,7 @@ func ensureDevModeFiles() error {
 			return
 		}
 		os.Setenv("TEMPL_DEV_MODE_ROOT", root)
+		devModeRoot = root
 		_, self, _, _ := runtime.Caller(0)
 		dir := filepath.Join(filepath.Dir(self), "corpus")
 		h := generatecmd.NewFSEventHandler(slog.New(slog.NewTextHandler(io.Discard, nil)), dir, true, nil, false, true,
@@ -97,7 +124,7 @@ func c14World(rc *kernel.RunCtx) {
 			rc.Finish(k)
 			return
 		}
-		templruntime.ResetWatchCache()
+		coldDevCache()
 	}
 	templruntime.SetDevelopmentMode(dev)
 	defer templruntime.SetDevelopmentMode(false)
@@ -125,7 +152,7 @@ func c14World(rc *kernel.RunCtx) {
 	if dev {
 		// the solo renders above filled the literal cache; start the tasks on a cold cache so
 		// that cache fills and lookups overlap between tasks
-		templruntime.ResetWatchCache()
+		coldDevCache()
 	}
 	// one CSS middleware per spec, shared by all tasks, with a registered subset
 	var regs []templ.CSSClass
@@ -160,7 +187,7 @@ func c14World(rc *kernel.RunCtx) {
 	}
 	bareDoc := []byte(bareBuf.String())
 	if dev {
-		templruntime.ResetWatchCache()
+		coldDevCache()
 	}
 	ntasks := t.Range(2, rc.Param("max_tasks", 6), "ntasks")
 	faultsLeft := t.Choose(3, "nfaults")
